@@ -47,6 +47,9 @@ def cases(tier, seed):
         for D in {"vort2d": (2,), "rot3d": (3,), "conv_mc_c": (1,), "conv_mc_nc": (1,)}.get(form, (1, 2, 3)):
             for N in ({1: [12, 15, 24], 2: [9, 12], 3: [9, 12]}[D] if tier == "quick" else {1: list(range(9, 30, 3)), 2: [9, 10, 12, 15], 3: [9, 10, 12]}[D]):
                 out.append(dict(kind="nowork", form=form, D=D, N=N, rs=[seed, env.crc(form), D, N], cost=N ** D / 100 + 1))
+    for x64 in (False, True):       # realistic workload: the README quick-start and documented defaults, default (float32) and x64 sessions
+        for which in ("readme_ks_conservative", "burgers_default", "ks_combustion_2d", "kdv_default"):
+            out.append(dict(kind="realistic", which=which, x64=x64, rs=[seed, env.crc(which)], cost=6))
     for name in FIXED_CLASSES:
         spec = zoo.SPECS[name]
         for D in spec["dims"]:
@@ -258,5 +261,46 @@ def run_fixed(case, bus, ex):
                   sample=dict(intent=it, equilibrium=label, value=ustar), witness=dict(intent=it, equilibrium=label, value=ustar, drift=worst), nontrivial=any(abs(x) > 0 for x in ustar))
 
 
+def run_realistic(case, bus, ex):
+    """Documented quick-start configurations under the mean monitor: every recorded step of a long jit-ed rollout (history checker)."""
+    import jax, jax.numpy as jnp
+    which, x64 = case["which"], case["x64"]
+    key = jax.random.PRNGKey(0)
+    if which == "readme_ks_conservative":
+        st = ex.stepper.KuramotoSivashinskyConservative(num_spatial_dims=1, domain_extent=100.0, num_points=200, dt=0.1)
+        u0 = ex.ic.RandomTruncatedFourierSeries(num_spatial_dims=1, cutoff=5)(num_points=200, key=key)
+        n = 500
+    elif which == "burgers_default":
+        st = ex.stepper.Burgers(1, 1.0, 100, 0.01)
+        u0 = ex.ic.RandomTruncatedFourierSeries(1, cutoff=5, max_one=True)(100, key=key)
+        n = 300
+    elif which == "ks_combustion_2d":
+        st = ex.stepper.KuramotoSivashinsky(2, 30.0, 32, 0.1)
+        u0 = ex.ic.RandomTruncatedFourierSeries(2, cutoff=3)(32, key=key)
+        n = 200
+    else:
+        st = ex.stepper.KortewegDeVries(1, 20.0, 100, 0.01)
+        u0 = ex.ic.RandomTruncatedFourierSeries(1, cutoff=5, max_one=True)(100, key=key)
+        n = 300
+    trj = np.asarray(jax.jit(ex.rollout(st, n, include_init=True))(u0)).astype(np.float64)
+    eps = float(np.finfo(np.float64 if x64 else np.float32).eps)
+    D = st.num_spatial_dims
+    m = trj.mean(axis=tuple(range(2, 2 + D)))          # (n+1, C)
+    fin = np.all(np.isfinite(trj), axis=tuple(range(1, 2 + D)))
+    S = float(np.max(np.abs(trj[0])))
+    for i in range(1, n + 1):
+        if not fin[i]:
+            bus.skip("mean_conserved", "trajectory left the finite range")
+            break
+        if i % 25 and i != n:
+            continue
+        S = max(S, float(np.max(np.abs(trj[i]))))
+        bus.judge("mean_conserved", float(np.max(np.abs(m[i] - m[0]))) / S, 8 * eps * np.sqrt(i) * (1 + np.log2(st.num_points ** D)), ("realistic:" + which, "x64" if x64 else "f32", "step<=100" if i <= 100 else "step>100"),
+                  sample=dict(workload=which, session="x64" if x64 else "f32", step=i, drift=float(np.max(np.abs(m[i] - m[0])))) if i == n else None,
+                  witness=dict(workload=which, session="x64" if x64 else "f32", step=i, drift=float(np.max(np.abs(m[i] - m[0]))), S=S))
+
+
 def run_case(case, bus, ex):
+    if case["kind"] == "realistic":
+        return run_realistic(case, bus, ex)
     return {"mean": run_mean, "nowork": run_nowork, "fixed": run_fixed}[case["kind"]](case, bus, ex)
